@@ -95,6 +95,14 @@ CHECKS = {
                      "seeded universes of long random keys; every recorded answer is validated by TLC through IKeyTrace.tla, inequalities "
                      "judged on the harness's reference order.",
                 tech="TLA+ order/shortening laws checked by TLC + exhaustive bounded conformance of the real iComparer by TLC trace validation"),
+    "C17": dict(cat="model_checking", ref="5 C17",
+                text="Cache.tla (bucket/node/LRU critical sections, unref and bucket-delete as separate steps, Delete callbacks, Evict*, "
+                     "SetCapacity, Close force/non-force) model-checked exhaustively for 2 keys x 2/3 threads against the five clauses of "
+                     "C17 (and the algorithm as it was before the two repairs must fail); the real cache.NewCache(NewLRU) under 2-16 "
+                     "goroutines x GOMAXPROCS 1/2/4/16 with instrumented values (constructor, finaliser, deletion callbacks), table "
+                     "growth/shrinkage and four closing variants is validated event by event by TLC through CacheTrace.tla, which drives "
+                     "the same clause operators.",
+                tech="TLA+ algorithm spec with observable clause layer + TLC trace monitoring of a concurrent stress driver"),
     "C06": dict(cat="model_checking", ref="5 C06",
                 text="LSM.tla (flush, compaction with level-0 closure / next-level overlap / drop rule / output cuts, snapshots) is "
                      "model-checked: the C06 laws of LSMLaws.tla (disjoint ordered levels, no empty file, recency across levels) and ReadOK "
